@@ -157,6 +157,13 @@ class SymStr:
     def __bool__(self):
         return len(self.cells) > 0
 
+    def __getattr__(self, name):
+        if name.startswith('__'):
+            raise AttributeError(name)
+        if hasattr('', name):
+            raise Unsupported('str.%s on symbolic characters' % name)
+        raise AttributeError(name)
+
     def __repr__(self):
         return 'SymStr(%s)' % ''.join(c if isinstance(c, str) else '?' for c in self.cells)
 
@@ -472,6 +479,9 @@ class HexInt:
                 nibs = self.nibs[len(self.nibs) - sig:]
             cells = [HexNib(t) for t in nibs]
             return SymStr(['0'] * max(0, w - len(cells)) + cells)
+        if spec == 'x':
+            sig = self.significant()
+            return SymStr([HexNib(t) for t in self.nibs[len(self.nibs) - sig:]])
         if spec == '':
             from .models import LazyFmt
             return LazyFmt(self)
